@@ -37,7 +37,7 @@ pub struct LinkAddrScenario;
 pub fn property<C: Codec>() -> Property {
     Property {
         id: "C07",
-        scenarios: vec![erase::<C, _>(LinkAddrScenario)],
+        scenarios: vec![erase::<C, _>(LinkAddrScenario), erase::<C, _>(super::c07_app::AppAddrScenario)],
     }
 }
 
